@@ -467,6 +467,9 @@ func (t *treeConc) cellOp(fr *frame, op string, addr *value, args []value, plain
 	if addr == nil {
 		panic(targetPanic{"invalid memory address or nil pointer dereference"})
 	}
+	if r, done := t.preSpawnOp(op, addr, args, plain); done {
+		return r
+	}
 	name := t.cellName(addr, hint)
 	k := t.cellKind(addr)
 	c := t.i.ex.Ctx
@@ -498,6 +501,59 @@ func (t *treeConc) cellOp(fr *frame, op string, addr *value, args []value, plain
 	}
 	unsupported("cell operation %s", op)
 	return nil
+}
+
+// preSpawnOp executes an atomic operation of the root directly on memory when
+// nothing can interleave with it and nothing about it is symbolic: no goroutine
+// has been started yet, no decision has been taken on this path (so every path
+// of every thread replays exactly this prefix), the cell has not been named
+// (its initial value for the BMC is captured at its first event) and all
+// operands are concrete.
+func (t *treeConc) preSpawnOp(op string, addr *value, args []value, plain bool) (value, bool) {
+	if plain || len(t.spawns) > 0 || len(t.i.ex.trail) > 0 || len(t.i.ex.pc) > 0 {
+		return nil, false
+	}
+	if _, named := t.names[addr]; named {
+		return nil, false
+	}
+	if _, named := t.shared[addr]; named {
+		return nil, false
+	}
+	k, ok := kindOf(*addr)
+	if !ok || isSym(*addr) {
+		return nil, false
+	}
+	if _, _, isInt := kindInfo(k); !isInt {
+		return nil, false
+	}
+	for _, a := range args {
+		if isSym(a) {
+			return nil, false
+		}
+	}
+	cur := asInt64(*addr)
+	set := func(x int64) { *addr = concreteOfKind(k, uint64(x)) }
+	switch op {
+	case "load":
+		return *addr, true
+	case "store":
+		set(asInt64(args[0]))
+		return nil, true
+	case "add":
+		set(cur + asInt64(args[0]))
+		return *addr, true
+	case "swap":
+		old := *addr
+		set(asInt64(args[0]))
+		return old, true
+	case "cas":
+		if cur == asInt64(args[0]) {
+			set(asInt64(args[1]))
+			return true, true
+		}
+		return false, true
+	}
+	return nil, false
 }
 
 func (t *treeConc) atomicOp(fr *frame, op string, addr *value, args []value) value {
